@@ -1,6 +1,6 @@
 import UF.Spec.Match
 import UF.Proofs.MergeSorted
-namespace UF
+namespace UF.E
 open Bytes
 
 /-! ### `hasPrefix` / `hasSuffix` -/
@@ -367,4 +367,4 @@ theorem matchRequestType_eq_spec (r : NetRule) (k : Nat) :
       · rw [e, e2, e5]; simp
   rw [hp, hr]
 
-end UF
+end UF.E
